@@ -134,8 +134,13 @@ def main():
         with open(sf, "w") as f:
             json.dump([cases[i] for i in b], f)
         lf = open(os.path.join(work, "log%d.txt" % k), "w")
+        # one private HOME per worker: Manager() creates ~/.quantarhei at
+        # import and concurrent creation races
+        envk = dict(env)
+        envk["HOME"] = os.path.join(work, "home%d" % k)
+        os.makedirs(envk["HOME"])
         p = subprocess.Popen([sys.executable, "-B", "-W", "ignore", "-m", "qrv.worker", pid, sf, of],
-                             cwd=work, env=env, stdout=lf, stderr=subprocess.STDOUT)
+                             cwd=work, env=envk, stdout=lf, stderr=subprocess.STDOUT)
         procs.append((p, b, of, lf, k))
 
     results = {}
@@ -333,8 +338,6 @@ def main():
     else:
         print("work dir kept:", work)
 
-    if n_viol:
-        sys.exit(1)
     if reasons:
         for r in reasons:
             print("INCONCLUSIVE property=%s reason=%s" % (pid, r))
@@ -342,6 +345,9 @@ def main():
             print("  worker shard=%s rc=%s reported=%s/%s\n%s" % (wp["shard"], wp["rc"], wp["reported"], wp["cases"], wp["log_tail"]))
         for ic in inconclusive_cases[:3]:
             print("  case:", json.dumps(ic, default=str)[:1500])
+    if n_viol:
+        sys.exit(1)
+    if reasons:
         sys.exit(2)
     sys.exit(0)
 
